@@ -25,7 +25,7 @@ CHECKS = {
   note="Trusts the Go toolchain, the guarded VerifState snapshot and the confinement of generated bodies (no cross-call JS-heap state). Semantics of the continuation after a catchable fault is judged by C08's engine, not here.",
   technique=TECH+": seeded fault schedules over simulated host callbacks; counterfactual (fault-free twin) + idle-state-invariant oracles; tape-level shrinking; replay files"),
 "C08": dict(engine="ctlsim", ref="DESIGN.md 5.2",
-  text="Programs from a control-flow skeleton grammar (nested try/catch/finally, labelled for/while/do-while/for-in/for-of, switch, labelled blocks, array destructuring, spread, yield*, generators, instrumented iterators whose next/return/throw methods are probes) are printed as JavaScript and run by the real goja; every block head is an exit point listing every legal throw / return / break L / continue L, and a seeded DECISION SCHEDULE chooses per dynamic visit which exit fires, what each iterator method does (normal, throw, early done, non-object) and optionally where an interrupt lands. A definitional reference interpreter with explicit completion records (ECMA-262 try/finally override, LoopContinues, ForIn/OfBodyEvaluation + IteratorClose, IteratorBindingInitialization, spread, yield*, generator state machine) consumes the same schedule; event logs (probes, markers with values, iterator method calls, catch bindings), the final completion and the idle-state invariant are compared.",
+  text="Programs from a control-flow skeleton grammar (nested try/catch/finally, labelled for/while/do-while/for-in/for-of, switch, labelled blocks, array destructuring, spread, yield*, generators, instrumented iterators whose next/return/throw methods are probes) are printed as JavaScript and run by the real goja; every block head is an exit point listing every legal throw / return / break L / continue L, and a seeded DECISION SCHEDULE chooses per dynamic visit which exit fires, what each iterator method does (normal, throw, early done, non-object) and optionally where an interrupt lands; one run in eight is repeated under a call-depth limit (stack overflow must be invisible to script: prefix of the unlimited run). A definitional reference interpreter with explicit completion records (ECMA-262 try/finally override, LoopContinues, ForIn/OfBodyEvaluation + IteratorClose, IteratorBindingInitialization, spread, yield*, generator state machine) consumes the same schedule; event logs (probes, markers with values, iterator method calls, catch bindings), the final completion and the idle-state invariant are compared.",
   note="Trusts the reference interpreter (sim/ctl) as a transcription of the specification for the skeleton language; it was calibrated on the tree and every mismatch triaged against the specification text (6 genuine goja defects repaired). Statement completion values are not compared. Error objects are compared by constructor name.",
   technique=TECH+": seeded decision schedules (abrupt exits, iterator-method faults, interrupts) over generated control-flow programs; event-log refinement against an executable reference interpreter"),
 "C09": dict(engine="ctlsim", ref="DESIGN.md 5.2",
@@ -46,11 +46,11 @@ CHECKS = {
   technique=TECH+": seeded interrupt schedules incl. a real interrupting goroutine serialised by HB-transparent batons under the race detector; prefix-of-counterfactual oracle"),
 "C18": dict(engine="mapsim", ref="DESIGN.md 5.3 (C18)",
   text="2-4 cooperative client tasks share 1-2 Map/Set collections inside one real Runtime; a seeded scheduler decides which client steps next between top-level steps, inside every forEach callback, inside generator-based iteration clients suspended in VM frames and inside Go-side ForOf; callbacks may throw (injected). Every recorded step is applied to the specification's tombstone-list reference model in schedule order and each result, each iterator visit and size compared. Key pool of 33 SameValueZero classes / ~115 representations drawn per run.",
-  note="Concurrency is cooperative task interleaving (the only kind one Runtime has); correctness reduces to equality with the sequential model in schedule order. The symbol-keyed property table of ordinary objects is not exercised.",
+  note="Concurrency is cooperative task interleaving (the only kind one Runtime has); correctness reduces to equality with the sequential model in schedule order. A third collection kind is the symbol-keyed property table of an ordinary object (define/get/has/delete, getOwnPropertySymbols / Reflect.ownKeys snapshots, Object.assign and spread copies, Go-side SetSymbol/DeleteSymbol/Symbols); the live-iterator-vs-snapshot difference under side-effecting getters is deliberately not asserted.",
   technique=TECH+": seeded cooperative-task scheduler over shared collections with injected callback failures; operation-by-operation refinement against an executable reference model"),
 "C16": dict(engine="racesim", ref="DESIGN.md 5.4, 3.4",
   text="2-16 real goroutines, each with its own Runtime, run ONE compiled Program (generated, biased to constructs that embed mutable-looking objects: regex literals of both engines, tagged templates, private names, static blocks, eval/with/arguments functions, generators, rendered error stacks) and operate on shared primitive Values (lazily scanned imported Go strings, concatenations, UTF-16 strings, symbols, BigInts, numbers). Exactly one goroutine runs at a time; which one and for how many VM instructions is drawn from the tape; hand-off by raw pipe syscalls adds no happens-before edge, so the race detector (binary built with -race) judges goja's own synchronisation only. Oracles: no race report or Go fatal error; each goroutine's output equals that of the same script run alone on a fresh runtime with a separately compiled program and separately built values; an Object of another runtime is rejected with TypeError.",
-  note="Interleaving granularity is the VM instruction. The race detector's per-word history is bounded: a clean batch is evidence, not proof. Values are published to goroutines by the go statement (creation edge).",
+  note="Interleaving granularity is the VM instruction. The race detector's per-word history is bounded: a clean batch is evidence, not proof. Values are published to goroutines by the go statement (creation edge) and, for values created during the run, through a mutex-guarded mailbox as user code would; operations on mailbox values are executed but not recorded (their availability depends on the schedule).",
   technique=TECH+": seeded goroutine scheduler at VM-instruction granularity with happens-before-transparent hand-off under the race detector; isolated-run differential oracle"),
 "C17": dict(engine="bufsim", ref="DESIGN.md 5.5",
   text="The simulated party is the Go host that owns the memory: ArrayBuffers are Go []byte inside guard-paged mmap slabs (PROT_NONE either side, page revoked on Detach) with canaries; a seeded fault schedule makes the host detach the buffer, detach a different buffer the operation reads next, overwrite bytes from Go, or return shorter/detached/retyped/aliased species results - inside valueOf/comparator/callback/species hooks that goja calls mid-operation. 31 operation kinds over all 11 element types and DataView. Oracles: any stray access faults (SetPanicOnFault) or corrupts a canary; fault-free steps are compared byte for byte and result for result with an ECMA-262 byte model and across aliasing views; after an injected fault the oracle is relaxed narrowly to 'throws TypeError/RangeError or completes, touching nothing outside what the fault-free step writes'.",
